@@ -31,6 +31,25 @@ type vEvent struct {
 	pid    uint16
 	sei    uint32
 	qos    byte
+	// symbolic properties of the packets / subscriptions / clients handed to the hooks
+	alias  uint16
+	mexp   uint32
+	pfmt   byte
+	pfmtF  bool
+	subID  int
+	rh     byte
+	nl     bool
+	rap    bool
+	dup    bool
+	origin int
+	rm     uint16
+	clean  bool
+	ver    byte
+}
+
+func vMsgProps(e vEvent) packets.Properties {
+	return packets.Properties{TopicAlias: e.alias, TopicAliasFlag: e.alias != 0, MessageExpiryInterval: e.mexp, PayloadFormat: e.pfmt, PayloadFormatFlag: e.pfmtF,
+		ContentType: "ct", ResponseTopic: "rt", CorrelationData: []byte{9}, SubscriptionIdentifier: []int{e.subID}, User: []packets.UserProperty{{Key: "k", Val: "v"}}}
 }
 
 func vClients() []*mqtt.Client {
@@ -51,6 +70,10 @@ func vApply(h mqtt.Hook, cls []*mqtt.Client, e vEvent) {
 	switch e.kind {
 	case 0:
 		cl.Properties.Props.SessionExpiryInterval = e.sei
+		cl.Properties.Props.ReceiveMaximum = e.rm
+		cl.Properties.Clean = e.clean
+		cl.Properties.ProtocolVersion = e.ver
+		cl.Properties.Username = []byte("u")
 		h.OnSessionEstablished(cl, packets.Packet{})
 	case 1:
 		cl.Properties.Props.SessionExpiryInterval = e.sei // e.g. changed by the DISCONNECT packet
@@ -59,13 +82,13 @@ func vApply(h mqtt.Hook, cls []*mqtt.Client, e vEvent) {
 		}
 		h.OnDisconnect(cl, nil, e.expire)
 	case 2:
-		h.OnSubscribed(cl, packets.Packet{Filters: packets.Subscriptions{{Filter: filters[e.filter], Qos: e.qos}}}, []byte{e.qos})
+		h.OnSubscribed(cl, packets.Packet{Filters: packets.Subscriptions{{Filter: filters[e.filter], Qos: e.qos, Identifier: e.subID, RetainHandling: e.rh, NoLocal: e.nl, RetainAsPublished: e.rap}}}, []byte{e.qos})
 	case 3:
 		h.OnUnsubscribed(cl, packets.Packet{Filters: packets.Subscriptions{{Filter: filters[e.filter]}}})
 	case 4:
-		h.OnRetainMessage(cl, packets.Packet{FixedHeader: packets.FixedHeader{Type: packets.Publish, Retain: true, Qos: e.qos}, TopicName: topics[e.topic], Payload: []byte{1}, Created: 5}, e.r)
+		h.OnRetainMessage(cl, packets.Packet{FixedHeader: packets.FixedHeader{Type: packets.Publish, Retain: true, Qos: e.qos, Dup: e.dup}, TopicName: topics[e.topic], Payload: []byte{1}, Created: 5, Origin: []string{"a", "b"}[e.origin], Properties: vMsgProps(e)}, e.r)
 	case 5:
-		h.OnQosPublish(cl, packets.Packet{FixedHeader: packets.FixedHeader{Type: packets.Publish, Qos: 1}, TopicName: topics[e.topic], Payload: []byte{2}, PacketID: e.pid, Created: 6}, 6, 0)
+		h.OnQosPublish(cl, packets.Packet{FixedHeader: packets.FixedHeader{Type: packets.Publish, Qos: 1, Dup: e.dup}, TopicName: topics[e.topic], Payload: []byte{2}, PacketID: e.pid, Created: 6, Origin: []string{"a", "b"}[e.origin], Properties: vMsgProps(e)}, 6, 0)
 	case 6:
 		h.OnQosComplete(cl, packets.Packet{PacketID: e.pid})
 	case 7:
@@ -106,7 +129,8 @@ func vSameClients(a, b []storage.Client) bool {
 	for _, x := range a {
 		found := false
 		for _, y := range b {
-			if x.ID == y.ID && x.Properties.SessionExpiryInterval == y.Properties.SessionExpiryInterval && x.ProtocolVersion == y.ProtocolVersion && x.Clean == y.Clean && x.Listener == y.Listener {
+			if x.ID == y.ID && x.Properties.SessionExpiryInterval == y.Properties.SessionExpiryInterval && x.ProtocolVersion == y.ProtocolVersion && x.Clean == y.Clean && x.Listener == y.Listener &&
+				x.Properties.ReceiveMaximum == y.Properties.ReceiveMaximum && string(x.Username) == string(y.Username) && x.Remote == y.Remote {
 				found = true
 			}
 		}
@@ -124,7 +148,7 @@ func vSameSubs(a, b []storage.Subscription) bool {
 	for _, x := range a {
 		found := false
 		for _, y := range b {
-			if x.Client == y.Client && x.Filter == y.Filter && x.Qos == y.Qos {
+			if x.Client == y.Client && x.Filter == y.Filter && x.Qos == y.Qos && x.Identifier == y.Identifier && x.RetainHandling == y.RetainHandling && x.NoLocal == y.NoLocal && x.RetainAsPublished == y.RetainAsPublished {
 				found = true
 			}
 		}
@@ -135,6 +159,24 @@ func vSameSubs(a, b []storage.Subscription) bool {
 	return true
 }
 
+func vSameProps(x, y storage.MessageProperties) bool {
+	if len(x.SubscriptionIdentifier) != len(y.SubscriptionIdentifier) || len(x.User) != len(y.User) {
+		return false
+	}
+	for i := range x.SubscriptionIdentifier {
+		if x.SubscriptionIdentifier[i] != y.SubscriptionIdentifier[i] {
+			return false
+		}
+	}
+	for i := range x.User {
+		if x.User[i] != y.User[i] {
+			return false
+		}
+	}
+	return string(x.CorrelationData) == string(y.CorrelationData) && x.ContentType == y.ContentType && x.ResponseTopic == y.ResponseTopic &&
+		x.MessageExpiryInterval == y.MessageExpiryInterval && x.TopicAlias == y.TopicAlias && x.PayloadFormat == y.PayloadFormat && x.PayloadFormatFlag == y.PayloadFormatFlag
+}
+
 func vSameMsgs(a, b []storage.Message) bool {
 	if len(a) != len(b) {
 		return false
@@ -142,7 +184,7 @@ func vSameMsgs(a, b []storage.Message) bool {
 	for _, x := range a {
 		found := false
 		for _, y := range b {
-			if x.TopicName == y.TopicName && x.Client == y.Client && x.PacketID == y.PacketID && x.FixedHeader.Qos == y.FixedHeader.Qos && x.Created == y.Created && len(x.Payload) == len(y.Payload) {
+			if x.TopicName == y.TopicName && x.Client == y.Client && x.PacketID == y.PacketID && x.FixedHeader == y.FixedHeader && x.Created == y.Created && x.Sent == y.Sent && string(x.Payload) == string(y.Payload) && x.Origin == y.Origin && vSameProps(x.Properties, y.Properties) {
 				found = true
 			}
 		}
@@ -159,7 +201,8 @@ func VerifC22Step() {
 	n := vParam("EVENTS", 2)
 	var evs []vEvent
 	for i := 0; i < n; i++ {
-		evs = append(evs, vEvent{kind: vChoose(12), cid: vChoose(2), expire: vBool(), takeov: vBool(), filter: vChoose(2), topic: vChoose(2), r: []int64{1, -1, 0}[vChoose(3)], pid: vU16(), sei: vU32(), qos: vByteIn("\x00\x01\x02")})
+		evs = append(evs, vEvent{kind: vChoose(12), cid: vChoose(2), expire: vBool(), takeov: vBool(), filter: vChoose(2), topic: vChoose(2), r: []int64{1, -1, 0}[vChoose(3)], pid: vU16(), sei: vU32(), qos: vByteIn("\x00\x01\x02"),
+			alias: vU16(), mexp: vU32(), pfmt: vByte(), pfmtF: vBool(), subID: int(vU16()), rh: vByteIn("\x00\x01\x02"), nl: vBool(), rap: vBool(), dup: vBool(), origin: vChoose(2), rm: vU16(), clean: vBool(), ver: vByteIn("\x04\x05")})
 	}
 	var snaps []vSnapshot
 	for _, h := range hooks {
